@@ -18,7 +18,7 @@ def nontriv(c, m):
 
 INFO, run, replay = sessprop.make(
     'C12', ['out.cmd*', 'out.msg', 'final.ctrl.matchers'],
-    ['Proofs/MatcherProofs.v'],
+    ['Proofs/MatcherProofs.v', 'Proofs/JoinSteps.v'],
     ['theorems are about WD.Matcher.join / simplify; tied to core.matcher.join and Controller.parse_and_join by sessions in which filter/breakpoint commands (alternatives, exclusions, both, `*`, `!`, malformed) are chained and every later message line / Stopped notice / printed matcher is compared'],
-    'C12_join_accumulates / C12_join_replaces', gen, nontriv,
+    'C12_run_exact / C12_run_selects / C12_join_replaces', gen, nontriv,
     'generated sessions with chained filter/breakpoint commands (30% rate between lines; 10% malformed matchers) followed by more traffic; non-trivial = at least three filter/breakpoint commands; distinct by input')
